@@ -147,6 +147,8 @@ def run(ctx):
                     files = rng.sample(PATTERNS, rng.randint(1, 3))
                     cr = rng.choice(COPYRIGHTS)
                     lic = real.License(rng.choice(SYNOPSES), rng.choice(TEXTS))
+                    if rng.random() < 0.08:
+                        lic = real.License("")          # an empty License field, the last field of the paragraph
                     cp.add_files_paragraph(real.FilesParagraph.create(files, cr, lic))
                     last = max([i for i, m in enumerate(model) if m[0] == "files"], default=-1)
                     model.insert(last + 1, ("files", tuple(files), cr, (lic.synopsis, lic.text)))
